@@ -9,6 +9,8 @@ run_stdout, _run_stdout_multi_core, _worker, _writer.  Simulated:
              tape-driven scheduler hands it over only at IPC points
   SimStdout  replaces `sys.stdout`       (per-process user-space buffer + one shared file; fork copies unflushed bytes)
   SimClock   replaces `headermeta._date` (today() = simulated date)
+  SimFiles   wraps `pysam.{AlignmentFile,VariantFile,FastaFile,TabixFile}`: fork semantics of open files (inherited
+             handles share one kernel offset; reads by two simulated processes are a race)
 """
 import datetime
 import os
@@ -509,6 +511,112 @@ class SimStdout:
         return False
 
 
+class _Handle:
+    """Proxy for a pysam file object that reports every read access to SimFiles."""
+
+    def __init__(self, files, real, kind, sched, creator, pools_at_open):
+        d = self.__dict__
+        d["_files"] = files
+        d["_real"] = real
+        d["_kind"] = kind
+        d["_sched"] = sched
+        d["_creator"] = creator
+        d["_pools_at_open"] = pools_at_open
+        d["_users"] = {}
+
+    def __getattr__(self, name):
+        attr = getattr(self._real, name)
+        if name in SimFiles.READS:
+            SimFiles.touch(self, name)
+        return attr
+
+    def __setattr__(self, name, value):
+        setattr(self._real, name, value)
+
+    def __enter__(self):
+        self._real.__enter__()
+        return self
+
+    def __exit__(self, *a):
+        return self._real.__exit__(*a)
+
+    def __iter__(self):
+        SimFiles.touch(self, "__iter__")
+        return iter(self._real)
+
+    def __next__(self):
+        SimFiles.touch(self, "__next__")
+        return next(self._real)
+
+
+class SimFiles:
+    """fork semantics for open files.  A file opened by the parent before the Pool is created is inherited by every
+    worker, and all inheritors share ONE open file description (one kernel offset; htslib reads with read/lseek).
+    Reads through it by two different simulated processes race on that offset: what each gets depends on the
+    schedule.  Module state (e.g. a cache of handles) is shared by the simulated processes exactly as a fork
+    would copy it, so an inherited handle is the same proxy object in every simulated process."""
+
+    KINDS = ("AlignmentFile", "VariantFile", "FastaFile", "Fastafile", "TabixFile")
+    READS = frozenset(["fetch", "count", "pileup", "head", "mate", "count_coverage", "find_introns", "get_reference_length"])
+    current = None  # the SimFiles of the simulated program run in progress (a handle may outlive the run that opened it)
+
+    @staticmethod
+    def touch(h, what):
+        if SimFiles.current is not None:
+            SimFiles.current.use(h, what)
+
+    def __init__(self, sched, pysam, mp):
+        self.s = sched
+        self.pysam = pysam
+        self.mp = mp
+        self.saved = {}
+
+    def install(self):
+        for kind in self.KINDS:
+            real = getattr(self.pysam, kind, None)
+            if real is None:
+                continue
+            self.saved[kind] = real
+            setattr(self.pysam, kind, self._factory(kind, real))
+        SimFiles.current = self
+
+    def restore(self):
+        for kind, real in self.saved.items():
+            setattr(self.pysam, kind, real)
+        self.saved = {}
+        SimFiles.current = None
+
+    def _factory(self, kind, real):
+        def open_(*a, **kw):
+            task = self.s.cur()
+            return _Handle(self, real(*a, **kw), kind, self.s, task.name if task.pool is not None else "main", len(self.mp.pools))
+        return open_
+
+    def use(self, h, what):
+        task = self.s.cur()
+        if h._sched is not self.s:
+            # opened during an earlier program run in this OS process: if the parent opened it, it is as if opened before any
+            # fork; if a worker of that run did, no process of this run would have it (sharing it is a simulator artefact)
+            creator, opened_at = h._creator, 0
+        else:
+            creator, opened_at = h._creator, h._pools_at_open
+        if creator != "main" or len(self.mp.pools) <= opened_at:
+            return  # opened inside a worker (private to it), or no fork since it was opened
+        if task.pool is not None and self.mp.pools.index(task.pool) < opened_at:
+            return  # a worker forked before the file was opened does not have it
+        users = h._users.setdefault(id(self.s), [])
+        who = task.name if task.pool is not None else "main"
+        if who not in users:
+            users.append(who)
+        self.s.ctx.counters.inc("inherited_handle_reads")
+        if len(users) >= 2:
+            raise SimAbort(Violation(
+                "shared_file_offset",
+                "a %s opened in the parent before the worker pool was forked is read by simulated processes %s and %s: forked processes share "
+                "the open file description (one kernel offset), so what each reads depends on the schedule" % (h._kind, users[0], users[1]),
+                step=self.s.n_switch, detail={"kind": h._kind, "users": list(users), "access": what}))
+
+
 class SimDate:
     """Replacement for `headermeta._date`."""
 
@@ -561,8 +669,11 @@ class ProcessSim:
         orig_call_locus = program_cls.call_locus
         err = None
         prog = None
+        files = None
         try:
             baseclass.mp = SimMP(s)
+            files = SimFiles(s, m["pysam"], baseclass.mp)
+            files.install()
             headermeta._date = SimDate(clock)
             if before_locus is not None:
                 def call_locus(self_, locus, sample_bams):
@@ -588,6 +699,8 @@ class ProcessSim:
                 sys.argv = saved_argv
         finally:
             sys.stdout = saved[2]
+            if files is not None:
+                files.restore()
             baseclass.mp, headermeta._date = saved[0], saved[1]
             program_cls.call_locus = orig_call_locus
             s.shutdown()
